@@ -105,8 +105,11 @@ func (d *concDevice) attach() {
 			atomic.AddInt32(&d.inflight, 1)
 			go func() {
 				time.Sleep(d.delay)
-				d.conn.Feed(reply)
+				// the counter goes down BEFORE the reply becomes readable: otherwise a correct
+				// client could read it, return, and let the next caller write its request while the
+				// counter still says "unanswered" (a false overlap, seen once under load)
 				atomic.AddInt32(&d.inflight, -1)
+				d.conn.Feed(reply)
 			}()
 			return
 		}
